@@ -51,6 +51,18 @@ fn tree_labels() -> [Lab; 4] {
     [Lab::Alpha(0), Lab::Str("foo".into()), Lab::Greek('ρ'), Lab::Str("bar".into())]
 }
 
+/// The four labels of a case: the ordinary ones, or a family of labels that collide under
+/// lossy comparisons (code points equal modulo 256 / modulo 65536, ASCII case, a common
+/// 16-byte prefix) — different labels all the same, so h's path must be created beside g's.
+fn case_labels(sel: u8) -> [Lab; 4] {
+    match sel % 8 {
+        5 => [Lab::Str("ах".into()), Lab::Str("0E".into()), Lab::Str("да".into()), Lab::Str("40".into())],
+        6 => [Lab::Str("foo".into()), Lab::Str("Foo".into()), Lab::Greek('\u{10430}'), Lab::Greek('\u{0430}')],
+        7 => [Lab::Str("数据节点甲一".into()), Lab::Str("数据节点甲二".into()), Lab::Alpha(256), Lab::Alpha(0)],
+        _ => tree_labels(),
+    }
+}
+
 fn wide_labels() -> Vec<Lab> {
     let mut v: Vec<Lab> = (0..10).map(Lab::Alpha).collect();
     v.extend(["foo", "bar", "abcdefgh", "k1", "k2"].iter().map(|s| Lab::Str((*s).to_string())));
@@ -69,7 +81,7 @@ fn shape_wide(mask: u32, seeds: &[NodeSeed], n: usize) -> Vec<(Option<usize>, Op
         }
     }
     if nodes.len() > 1 && n >= 2 {
-        let below = shape(seeds, n);
+        let below = shape(seeds, n, &tree_labels());
         let base = nodes.len();
         for (p, l) in below.iter().skip(1).take(3) {
             let parent = match p {
@@ -86,8 +98,7 @@ fn shape_wide(mask: u32, seeds: &[NodeSeed], n: usize) -> Vec<(Option<usize>, Op
 }
 
 /// Shape a tree from node seeds: (parent index, label) per node; node 0 is the root.
-fn shape(seeds: &[NodeSeed], n: usize) -> Vec<(Option<usize>, Option<Lab>)> {
-    let labels = tree_labels();
+fn shape(seeds: &[NodeSeed], n: usize, labels: &[Lab; 4]) -> Vec<(Option<usize>, Option<Lab>)> {
     let mut nodes: Vec<(Option<usize>, Option<Lab>)> = vec![(None, None)];
     for (i, s) in seeds.iter().enumerate().skip(1) {
         let _ = i;
@@ -118,7 +129,7 @@ fn node_data(s: &NodeSeed) -> (Option<Vec<u8>>, bool) {
 fn make_h(case: &TreeCase, n: usize, with_extras: bool) -> TreeSpec {
     let sh = match case.wide {
         Some((_, mh)) if !with_extras => shape_wide(mh, &case.h, n),
-        _ => shape(&case.h, n),
+        _ => shape(&case.h, n, &case_labels(case.order_sel as u8)),
     };
     // small right graphs mostly; every fourth one lives in a 256-slot store with large ids
     let hcap = if case.wide.is_some() && !with_extras {
@@ -288,7 +299,7 @@ fn make_calls(case: &TreeCase, cfg: Cfg) -> Option<(Vec<Call>, Vec<usize>)> {
     // g: a tree over absent ids
     let sh = match case.wide {
         Some((mg, _)) => shape_wide(mg, &case.g, cfg.n),
-        None => shape(&case.g, cfg.n),
+        None => shape(&case.g, cfg.n, &case_labels(case.order_sel as u8)),
     };
     let mut free = r.m.absent_ids();
     if free.len() < sh.len() {
